@@ -88,6 +88,7 @@ pub fn run_campaigns(cfg: &CheckCfg, scratch: &Path) -> Result<Agg, String> {
     let total_weight: u32 = plan.iter().map(|c| if let Budget::Time(w) = c.budget { w } else { 0 }).sum();
     // determinism spot check before any verdict is believed: a few scenarios of every campaign,
     // twice each, under two different scratch paths
+    let mut nondet = 0u64;
     {
         let mut ca = runner::RunCtx::new(scratch.join("dta"));
         let mut cb = runner::RunCtx::new(scratch.join("dtb"));
@@ -104,7 +105,11 @@ pub fn run_campaigns(cfg: &CheckCfg, scratch: &Path) -> Result<Agg, String> {
                 let va: Vec<&String> = a.verdicts.iter().map(|v| &v.class).collect();
                 let vb: Vec<&String> = b.verdicts.iter().map(|v| &v.class).collect();
                 if a.sig != b.sig || va != vb || a.end != b.end {
-                    return Err(format!("nondeterminism: {}#{} gave event-log hashes {:016x} / {:016x}, ends {} / {}, verdicts {:?} / {:?}", c.name, idx, a.sig, b.sig, a.end, b.end, va, vb));
+                    // On the unchanged tree this never happens (tools/determinism.sh, ./check selftest).
+                    // With a changed tree it usually means the change itself behaves differently from run
+                    // to run (real clock, random state): said loudly, but the verdicts below still count.
+                    println!("WARNING: nondeterminism: {}#{} run twice gave event-log hashes {:016x} / {:016x}, endings {} / {}, verdicts {:?} / {:?}", c.name, idx, a.sig, b.sig, a.end, b.end, va, vb);
+                    nondet += 1;
                 }
             }
         }
@@ -180,6 +185,9 @@ pub fn run_campaigns(cfg: &CheckCfg, scratch: &Path) -> Result<Agg, String> {
         let data = std::fs::read(&path).map_err(|e| format!("{:?}: {}", path, e))?;
         let a: Agg = serde_json::from_slice(&data).map_err(|e| format!("{:?}: {}", path, e))?;
         agg.merge(a);
+    }
+    if nondet > 0 {
+        agg.notes.push(format!("determinism spot check: {} scenario(s) differed between two runs", nondet));
     }
     Ok(agg)
 }
